@@ -214,3 +214,75 @@ Check SrcTie3EncC.translated_fs_reader_runs.
 Theorem C04_tie_translated_fs_reader_runs : ltac:(let t := type of SrcTie3EncC.translated_fs_reader_runs in exact t).
 Proof. exact SrcTie3EncC.translated_fs_reader_runs. Qed.
 Print Assumptions C04_tie_translated_fs_reader_runs.
+
+(* ================= work package `carry2`: C04 about the GENERATED fail-safe decryptor =================
+   Subject: EncryptionLayerFailSafeReader::{new, read} as translated from encrypt.rs (gen/Src3e.v), both modes, over
+   ARBITRARY inner bytes w.
+   C04_fs_auth_refines_src: in the authenticated mode every read of the translated reader delivers the next bytes
+     of auth_out w (k = 0 only for an empty buffer or at the end), whatever the read sizes — nothing decoded after a
+     refused chunk is ever delivered (EncAuthFs.fs_auth_refines through enc_fs_read_sim).
+   C04_auth_prefix_of_unauth_src: both translated constructions succeed, every read of both succeeds, and what the
+     authenticated reader has delivered after ANY reads is a prefix of unauth_out w — of what the unauthenticated
+     reader has delivered as soon as that is at least as long (theories/Carry2Enc.v). *)
+From MLA Require Carry2Enc.
+Theorem C04_fs_auth_refines_src :
+  forall (S : Stream) (CHUNK TAG : N) (ks : N -> N -> N) (tagc : N -> bytes -> bytes) (site_index : N), 0 < CHUNK ->
+  forall (w : bytes) (R : st S -> N -> Prop), Seekable S w R -> len w / (CHUNK + TAG) + 2 <= 2 ^ 32 ->
+  forall fuel (l : Src3e.EncryptionLayerFailSafeReader S) (q n : N),
+    SrcTie3Enc.unauth_of (Src3e.fs_mode S l) = false /\ FsInvA CHUNK TAG ks tagc S w R (SrcTie3Enc.abs_fs S l) q ->
+    exists (l' : Src3e.EncryptionLayerFailSafeReader S) (k : N),
+      Src3e.fs_read S CHUNK TAG ks tagc (rd_fuel CHUNK TAG) 416 site_index 419 (Datatypes.S (Datatypes.S fuel)) l n =
+        (l', Ok (sliceN q k (auth_out CHUNK TAG ks tagc w))) /\
+      k <= n /\ q + k <= len (auth_out CHUNK TAG ks tagc w) /\
+      (k = 0 -> n = 0 \/ q = len (auth_out CHUNK TAG ks tagc w)) /\
+      SrcTie3Enc.unauth_of (Src3e.fs_mode S l') = false /\ FsInvA CHUNK TAG ks tagc S w R (SrcTie3Enc.abs_fs S l') (q + k).
+Proof. exact SrcTie3EncC.fs_auth_refines_src. Qed.
+
+Theorem C04_auth_prefix_of_unauth_src :
+  forall (S : Stream) (CHUNK TAG : N) (ks : N -> N -> N) (tagc : N -> bytes -> bytes) (site_index : N), 0 < CHUNK ->
+  forall fuel (w : bytes) (R : st S -> N -> Prop), Seekable S w R -> len w / (CHUNK + TAG) + 2 <= 2 ^ 32 ->
+  forall (i0 : st S) (ns ms : list N), R i0 0 ->
+    exists la lu la' lu' A U,
+      Src3e.EncryptionLayerFailSafeReader_new S CHUNK TAG ks (rd_fuel CHUNK TAG) i0 (Some tt) Src3e.OnlyAuthenticatedData = Ok la /\
+      Src3e.EncryptionLayerFailSafeReader_new S CHUNK TAG ks (rd_fuel CHUNK TAG) i0 (Some tt) Src3e.DataEvenUnauthenticated = Ok lu /\
+      run_reads (Src3e.fs_read S CHUNK TAG ks tagc (rd_fuel CHUNK TAG) 416 site_index 419 (Datatypes.S (Datatypes.S fuel))) la ns = (la', Ok A) /\
+      run_reads (Src3e.fs_read S CHUNK TAG ks tagc (rd_fuel CHUNK TAG) 416 site_index 419 (Datatypes.S (Datatypes.S fuel))) lu ms = (lu', Ok U) /\
+      prefix A (auth_out CHUNK TAG ks tagc w) /\ prefix U (unauth_out CHUNK TAG ks w) /\
+      prefix A (unauth_out CHUNK TAG ks w) /\ (len A <= len U -> prefix A U).
+Proof. exact Carry2Enc.auth_prefix_of_unauth_src. Qed.
+Theorem C04_fs_open_unauth_src : ltac:(let t := type of Carry2Enc.fs_open_unauth_src in exact t).
+Proof. exact Carry2Enc.fs_open_unauth_src. Qed.
+
+(* non-vacuity THROUGH THE GENERATED CODE (toy cipher, CHUNK = 4, TAG = 2): a bit flipped in chunk 1; the
+   authenticated translated reader stops after chunk 0, the unauthenticated one goes on; the theorem applies *)
+Section ExSrc.
+  Let CH := 4. Let TG := 2.
+  Let plain : bytes := [1; 2; 3; 4; 5; 6; 7; 8; 9; 10].
+  Let wire := enc_format CH toy_ks (toy_tag TG) plain.
+  Let bad := firstn 7 wire ++ [N.lxor (nth 7 wire 0) 1] ++ skipn 8 wire.
+  Let SF := Cursor bad.
+  Let fsread := Src3e.fs_read SF CH TG toy_ks (toy_tag TG) (rd_fuel CH TG) 416 0 419 2%nat.
+  Let fsnew := Src3e.EncryptionLayerFailSafeReader_new SF CH TG toy_ks (rd_fuel CH TG) 0 (Some tt).
+  Example C04_example_auth_prefix_of_unauth_src :
+    (exists la lu la' lu' A U,
+       fsnew Src3e.OnlyAuthenticatedData = Ok la /\ fsnew Src3e.DataEvenUnauthenticated = Ok lu /\
+       run_reads fsread la [3; 100; 100] = (la', Ok A) /\ run_reads fsread lu [2; 5; 100] = (lu', Ok U) /\
+       (len A <= len U -> prefix A U)) /\
+    match fsnew Src3e.OnlyAuthenticatedData, fsnew Src3e.DataEvenUnauthenticated with
+    | Ok la, Ok lu =>
+      snd (run_reads fsread la [3; 100; 100]) = Ok [1; 2; 3; 4] /\
+      snd (run_reads fsread lu [2; 5; 100]) = Ok [1; 2; 3; 4; 5; 7; 7; 8]
+    | _, _ => False
+    end.
+  Proof.
+    split; [|vm_compute; split; reflexivity].
+    destruct (C04_auth_prefix_of_unauth_src SF CH TG toy_ks (toy_tag TG) 0 ltac:(reflexivity) 0%nat bad _
+                (cursor_seekable bad) ltac:(vm_compute; discriminate) 0 [3; 100; 100] [2; 5; 100] eq_refl)
+      as (la & lu & la' & lu' & A & U & H1 & H2 & H3 & H4 & _ & _ & _ & H5).
+    exists la, lu, la', lu', A, U. auto.
+  Qed.
+End ExSrc.
+Print Assumptions C04_fs_auth_refines_src.
+Print Assumptions C04_auth_prefix_of_unauth_src.
+Print Assumptions C04_fs_open_unauth_src.
+Print Assumptions C04_example_auth_prefix_of_unauth_src.
